@@ -3,6 +3,45 @@ from . import rules, dims
 from .. import smt, runner, extract
 
 
+def route_probe(seed, n_sets):
+    """'Converting a VoronoiIntegrator into a Voronoi gives bitwise the same tessellation as building it directly with the same arguments':
+    both routes through the public API on small inputs (1D/2D/3D, masks, periodic, garbage in the unused coordinates of generators, anchor
+    and width), compared field by field, bit for bit (JSON round-trips f64 exactly)."""
+    import random
+    from ..runner import replay_requests
+    rng = random.Random(seed)
+    reqs = []
+    for t in range(n_sets):
+        d = 1 + t % 3
+        n = rng.choice([1, 2, 6, 14])
+        w = [rng.choice([1.0, 2.5]), rng.choice([1.0, 0.6]), rng.choice([1.0, 1.7])]
+        an = [rng.choice([0.0, -3.0]), rng.choice([0.0, 4.0]), 0.0]
+        garb = lambda: rng.choice([0.0, 0.37, -5.5])
+        gens = [[an[0] + rng.random() * w[0], an[1] + rng.random() * w[1] if d >= 2 else garb(), an[2] + rng.random() * w[2] if d == 3 else garb()] for _ in range(n)]
+        if d < 3: an[2] = garb(); w[2] = rng.choice([1.0, 3.0])
+        if d < 2: an[1] = garb(); w[1] = rng.choice([1.0, 0.25])
+        rq = {"op": "build", "gens": gens, "anchor": an, "width": w, "dim": d, "periodic": bool(rng.random() < 0.5)}
+        if rng.random() < 0.5:
+            m = [rng.random() < 0.6 for _ in range(n)]
+            if not any(m): m[0] = True
+            rq["mask"] = m
+        reqs.append(rq); reqs.append(dict(rq, route="integrator"))
+    ans = replay_requests(reqs, timeout=900)
+    for k in range(0, len(reqs), 2):
+        a, b = ans[k], ans[k + 1]
+        if a.get("panic") and b.get("panic"): continue
+        if a != b:
+            what = "the two routes differ"
+            for key in ("cells", "faces", "connections"):
+                if a.get(key) != b.get(key):
+                    xs, ys = a.get(key) or [], b.get(key) or []
+                    i = next((i for i, (x, y) in enumerate(zip(xs, ys)) if x != y), min(len(xs), len(ys)))
+                    what = "%s differ at index %d: direct %r vs integrator %r" % (key, i, xs[i] if i < len(xs) else None, ys[i] if i < len(ys) else None)
+                    break
+            return len(reqs) // 2, {"request": reqs[k], "what": what[:1500]}
+    return len(reqs) // 2, None
+
+
 def run(tier, seed):
     obs, fns = rules.emit_obligations("C13", want=("sym",))
     o2, f2 = rules.constructed_iff_selected_obligations("C13"); obs += o2; fns += f2
@@ -10,10 +49,16 @@ def run(tier, seed):
     o3, f3 = dims.normalisation_obligations("C13"); obs += o3; fns += f3
     smt.discharge_all(obs, tier)
     results = [runner.from_smt(o) for o in obs]
+    n, bad = route_probe(seed, 30 if tier == "quick" else 300)
+    results.append(runner.Result("C13.bounded.real_integrator_route_equals_direct_route_bitwise", "R", "discharged" if bad is None else "refuted", 0.0, "replay",
+                                 "" if bad is None else repr(bad)[:3000], "Voronoi::build / build_partial vs Voronoi::from(&VoronoiIntegrator::build(..)) (public API, real crate)",
+                                 bounded="%d random inputs (1..14 generators; 1D/2D/3D; masks; periodic; garbage in unused coordinates), seed %d" % (n, seed),
+                                 counterexample=bad, replay={"reproduced": bad is not None, "mismatch": bad}))
     meta = {
         "level": "proof", "functions": fns,
-        "assumptions": ["route equality ('bitwise the same tessellation via the integrator') is a 2-safety property of two iterator pipelines: not claimed; "
-                        "what is checked is that both routes call from_convex_cell under the same construct-or-default condition with the same mask",
+        "assumptions": ["route equality ('bitwise the same tessellation via the integrator') is a 2-safety property of two iterator pipelines: NOT proved; "
+                        "proved is that both routes call from_convex_cell under the same construct-or-default condition with the same mask and hand the same normalised box to the cells; "
+                        "the equality itself is covered by a BOUNDED stand-in on the real crate only",
                         "the skip decision is per plane: `if integral.is_none()` makes it sticky for all tetrahedra of the plane (loop-level fact, not an obligation)"],
         "trusted_base": ["vx (syn 2 dump)", "vlib/symex.py", "z3 4.8.12 / z3 5.1 / cvc5 1.0"],
         "explanation": "The `continue` guard sliced from compute_face_integrals_sym holds iff the plane has an unshifted right neighbour with lower index that is active; the "
